@@ -9,6 +9,9 @@ spaces / tabs — before any field, LF or CRLF), comment lines and empty lines i
 `csvAll_render`: the model of `encoding/csv` as configured by `ReadCSVNGSFilter` returns exactly the declared
 records; `csvAll_render_raw`: the detectors (no `TrimLeadingSpace`) see the same records with the blanks.
 -/
+-- sequential elaboration: with 16 worker threads the address-space limit of the build (`ulimit -v`) is hit
+set_option Elab.async false
+
 namespace ObiVerif.NgsFilterBytes
 
 open ObiVerif.TaxLoad (rawLines csvLine splitOn trimLeft isSpace joinBytes splitOn_joinBytes rawLines_flatten
@@ -538,183 +541,5 @@ theorem readSheetBytes_wf (text : Bytes) (lib : Lib) (h : readSheetBytes text = 
       | old =>
         simp only [hw, bind, Option.bind, Option.some.injEq] at h
         exact readSheetOld_wf _ lib h
-
-end ObiVerif.NgsFilterBytes
-
-namespace ObiVerif.NgsFilterBytes
-
-open ObiVerif.TaxLoad (rawLines rawLines_flatten)
-open ObiVerif.NgsFilter
-
-/-! ## the old format: `_readLines` on a rendering -/
-
-def chr (c : UInt8) : Char := Char.ofNat c.toNat
-
-/-- bytes that `strings.TrimSpace` removes -/
-def BlankB (p : Bytes) : Prop := ∀ c ∈ p, isBlank (chr c) = true
-
-/-- the content of a line: not empty, no line feed, no blank at either end -/
-structure ContentOK (c : Bytes) : Prop where
-  nonempty : c ≠ []
-  noLF : 10 ∉ c
-  first : ∀ x, c.head? = some x → isBlank (chr x) = false
-  last : ∀ x, c.getLast? = some x → isBlank (chr x) = false
-
-inductive OItem
-  | line (pad content trail : Bytes) (crlf : Bool)
-  | blank (ws : Bytes) (crlf : Bool)
-
-def OItem.bytes : OItem → Bytes
-  | .line pad content trail crlf => pad ++ content ++ trail ++ eol crlf
-  | .blank ws crlf => ws ++ eol crlf
-
-def OItem.OK : OItem → Prop
-  | .line pad content trail _ => BlankB pad ∧ 10 ∉ pad ∧ BlankB trail ∧ 10 ∉ trail ∧ ContentOK content
-  | .blank ws _ => BlankB ws ∧ 10 ∉ ws
-
-def OItem.content : OItem → Option String
-  | .line _ content _ _ => some (toStr content)
-  | .blank _ _ => none
-
-def renderOld (items : List OItem) : Bytes := (items.map OItem.bytes).flatten
-
-theorem dropWhile_blank_append (p l : List Char) (hp : ∀ c ∈ p, isBlank c = true)
-    (hl : ∀ x, l.head? = some x → isBlank x = false) : (p ++ l).dropWhile isBlank = l := by
-  induction p with
-  | nil =>
-    cases l with
-    | nil => rfl
-    | cons x r => simp [List.dropWhile, hl x rfl]
-  | cons c r ih =>
-    simp only [List.cons_append, List.dropWhile, hp c (by simp)]
-    exact ih (fun x hx => hp x (by simp [hx]))
-
-theorem trim_line (pad content trail : Bytes) (hp : BlankB pad) (ht : BlankB trail) (hc : ContentOK content) :
-    trim (toStr (pad ++ content ++ trail)) = toStr content := by
-  unfold trim toStr
-  simp only [String.toList_ofList, List.map_append]
-  have h1 : ((pad.map (fun c => Char.ofNat c.toNat)) ++ (content.map (fun c => Char.ofNat c.toNat)) ++
-      (trail.map (fun c => Char.ofNat c.toNat))).dropWhile isBlank =
-      (content.map (fun c => Char.ofNat c.toNat)) ++ (trail.map (fun c => Char.ofNat c.toNat)) := by
-    rw [List.append_assoc]
-    apply dropWhile_blank_append
-    · intro c hc'
-      obtain ⟨b, hb, rfl⟩ := List.mem_map.1 hc'
-      exact hp b hb
-    · intro x hx
-      cases content with
-      | nil => exact absurd rfl hc.nonempty
-      | cons b r =>
-        simp only [List.map_cons, List.cons_append, List.head?_cons, Option.some.injEq] at hx
-        subst hx
-        exact hc.first b rfl
-  rw [h1, List.reverse_append]
-  have h2 : ((trail.map (fun c => Char.ofNat c.toNat)).reverse ++ (content.map (fun c => Char.ofNat c.toNat)).reverse).dropWhile isBlank =
-      (content.map (fun c => Char.ofNat c.toNat)).reverse := by
-    apply dropWhile_blank_append
-    · intro c hc'
-      obtain ⟨b, hb, rfl⟩ := List.mem_map.1 (List.mem_reverse.1 hc')
-      exact ht b hb
-    · intro x hx
-      rw [List.head?_reverse, List.getLast?_map] at hx
-      cases hl : content.getLast? with
-      | none => rw [hl] at hx; simp at hx
-      | some b =>
-        rw [hl] at hx
-        simp only [Option.map_some, Option.some.injEq] at hx
-        subst hx
-        exact hc.last b hl
-  rw [h2, List.reverse_reverse]
-
-theorem trim_blank (ws : Bytes) (h : BlankB ws) : trim (toStr ws) = "" := by
-  unfold trim toStr
-  simp only [String.toList_ofList]
-  have : (ws.map (fun c => Char.ofNat c.toNat)).dropWhile isBlank = [] := by
-    have := dropWhile_blank_append (ws.map (fun c => Char.ofNat c.toNat)) [] (by
-      intro c hc
-      obtain ⟨b, hb, rfl⟩ := List.mem_map.1 hc
-      exact h b hb) (by simp)
-    simpa using this
-  rw [this]
-  rfl
-
-theorem blank_eol (crlf : Bool) : BlankB (eol crlf) := by
-  intro c hc
-  cases crlf <;> simp [eol] at hc
-  · subst hc; decide
-  · rcases hc with e | e <;> subst e <;> decide
-
-theorem blankB_append (a b : Bytes) (ha : BlankB a) (hb : BlankB b) : BlankB (a ++ b) := by
-  intro c hc
-  rcases List.mem_append.1 hc with h | h
-  · exact ha c h
-  · exact hb c h
-
-theorem oitem_line (it : OItem) (h : it.OK) : ∃ b, it.bytes = b ++ [10] ∧ 10 ∉ b := by
-  cases it with
-  | line pad content trail crlf =>
-    obtain ⟨_, hp, _, ht, hc⟩ := h
-    have base : 10 ∉ pad ++ content ++ trail := by
-      intro hm
-      rcases List.mem_append.1 hm with hm | hm
-      · rcases List.mem_append.1 hm with hm | hm
-        · exact hp hm
-        · exact hc.noLF hm
-      · exact ht hm
-    cases crlf
-    · exact ⟨pad ++ content ++ trail, by simp [OItem.bytes, eol], base⟩
-    · refine ⟨pad ++ content ++ trail ++ [13], by simp [OItem.bytes, eol], ?_⟩
-      intro hm
-      rcases List.mem_append.1 hm with hm | hm
-      · exact base hm
-      · simp at hm
-  | blank ws crlf =>
-    cases crlf
-    · exact ⟨ws, by simp [OItem.bytes, eol], h.2⟩
-    · refine ⟨ws ++ [13], by simp [OItem.bytes, eol], ?_⟩
-      intro hm
-      rcases List.mem_append.1 hm with hm | hm
-      · exact h.2 hm
-      · simp at hm
-
-theorem toStr_ne_empty (c : Bytes) (h : c ≠ []) : (toStr c).isEmpty = false := by
-  cases c with
-  | nil => exact absurd rfl h
-  | cons b r =>
-    unfold toStr
-    simp [String.isEmpty_iff]
-
-/-- READ-BACK (old format): whatever the blanks before and after the lines, LF / CRLF and blank lines,
-`_readLines` returns the declared lines -/
-theorem readLines_renderOld (items : List OItem) (h : ∀ it ∈ items, it.OK) :
-    readLines (renderOld items) = items.filterMap OItem.content := by
-  unfold readLines renderOld
-  rw [rawLines_flatten _ (by
-    intro l hl
-    obtain ⟨it, hit, rfl⟩ := List.mem_map.1 hl
-    exact oitem_line it (h it hit))]
-  induction items with
-  | nil => rfl
-  | cons it rest ih =>
-    have ihr := ih (fun x hx => h x (by simp [hx]))
-    have hit := h it (by simp)
-    simp only [List.map_cons, List.filter_cons]
-    cases it with
-    | line pad content trail crlf =>
-      obtain ⟨hp, _, ht, _, hc⟩ := hit
-      have e : trim (toStr (OItem.line pad content trail crlf).bytes) = toStr content := by
-        have : (OItem.line pad content trail crlf).bytes = pad ++ content ++ (trail ++ eol crlf) := by
-          simp [OItem.bytes]
-        rw [this]
-        exact trim_line pad content _ hp (blankB_append _ _ ht (blank_eol crlf)) hc
-      rw [e, toStr_ne_empty content hc.nonempty]
-      simp only [Bool.not_false, if_true, List.filterMap_cons, OItem.content]
-      exact congrArg _ ihr
-    | blank ws crlf =>
-      have e : trim (toStr (OItem.blank ws crlf).bytes) = "" :=
-        trim_blank _ (blankB_append _ _ hit.1 (blank_eol crlf))
-      rw [e]
-      simp only [List.filterMap_cons, OItem.content]
-      exact ihr
 
 end ObiVerif.NgsFilterBytes
